@@ -319,16 +319,16 @@ type DeviceMapping struct {
 
 // WeightDevice is a structure that holds device:weight pair
 type WeightDevice struct {
-	Path   string
-	Weight uint16
+	Path   string `yaml:"path,omitempty" json:"path,omitempty"`
+	Weight uint16 `yaml:"weight,omitempty" json:"weight,omitempty"`
 
 	Extensions Extensions `yaml:"#extensions,inline,omitempty" json:"-"`
 }
 
 // ThrottleDevice is a structure that holds device:rate_per_second pair
 type ThrottleDevice struct {
-	Path string
-	Rate UnitBytes
+	Path string    `yaml:"path,omitempty" json:"path,omitempty"`
+	Rate UnitBytes `yaml:"rate,omitempty" json:"rate,omitempty"`
 
 	Extensions Extensions `yaml:"#extensions,inline,omitempty" json:"-"`
 }
